@@ -1,6 +1,7 @@
 /- Driver/Id3File.lean — ID3-framed file container commands (C02/C03/C07/C08/C09 for MP3-like files) -/
 import MutagenModel.Model.Container.Id3File
 import MutagenModel.Model.Container.Id3FileM
+import MutagenModel.Model.Container.Id3FileLoadM
 import Driver.Util
 import Driver.FlacC
 namespace Driver
@@ -21,6 +22,13 @@ def id3fOp (a : Args) : String :=
       (envOf a) { data := a.bytes "data" })
   | "deletem" =>
     showResult (deleteM (a.nat "B" 1048576) (a.nat "v1" 1 == 1) (a.nat "v2" 1 == 1) (envOf a) { data := a.bytes "data" })
+  -- `ID3(fileobj)` / the bare `ID3FileType(fileobj)` under a fault schedule (`fail=<i>:<err> short=<i>:<k>`)
+  | "loadm" =>
+    let showL : Loaded → String := fun r => match r with
+      | .noHeader => "r=noheader" | .unsupported => "r=unsupported" | .v1 n => s!"r=v1:{n}"
+      | .v2 vmaj flags body v1 => s!"r=v2:{vmaj}:{flags}:{hexField body}:{match v1 with | some n => toString n | none => "-"}"
+    let prog := if a.str "cls" "id3" == "filetype" then fileTypeLoadM else loadM (a.nat "v1" 1 == 1)
+    showResult (prog (envOf a) { data := a.bytes "data" }) showL
   | "findv1" => match findV1 (a.bytes "data") with | some n => s!"ok n={n}" | none => "ok n=0"
   | "hdr" => match headerSize (a.bytes "data") with
     | .ok (some n) => s!"ok size={n}" | .ok none => "ok size=none" | .error e => s!"err {e.name}"
